@@ -31,8 +31,8 @@ package decor
 //@   requires wc.fill != nil && ((wc.C & DSyncWidth) != 0 ==> wc.wsync != nil)
 //@   modifies sent(wc.wsync), recvd(wc.wsync)
 //@   ensures  honest: result1 >= 0 && dw(result0) == result1
-//@   ensures  own@C12: (wc.C & DSyncWidth) == 0 ==> result1 == max(wc.W, dw(str) + ite((wc.C & DextraSpace) != 0 && wc.W <= dw(str), 1, 0)) && sent(wc.wsync) == old(sent(wc.wsync))
-//@   ensures  exchange@C12: (wc.C & DSyncWidth) != 0 ==> sent(wc.wsync) == old(sent(wc.wsync)) + 1 && recvd(wc.wsync) == old(recvd(wc.wsync)) + 1
+//@   ensures  own: (wc.C & DSyncWidth) == 0 ==> result1 == max(wc.W, dw(str) + ite((wc.C & DextraSpace) != 0 && wc.W <= dw(str), 1, 0)) && sent(wc.wsync) == old(sent(wc.wsync))
+//@   ensures  exchange: (wc.C & DSyncWidth) != 0 ==> sent(wc.wsync) == old(sent(wc.wsync)) + 1 && recvd(wc.wsync) == old(recvd(wc.wsync)) + 1
 //@              && lastSent(wc.wsync) == max(wc.W, dw(str) + ite((wc.C & DextraSpace) != 0 && wc.W <= dw(str), 1, 0)) && result1 >= lastSent(wc.wsync)
 
 //@ func (*WC).Init
@@ -146,7 +146,7 @@ package decor
 //@   requires d != nil
 //@   modifies pkgstate("decor"), sent("chan int"), recvd("chan int")
 //@   ensures  honest: result1 >= 0 && dw(result0) == result1
-//@   ensures  frozen@C20: s.Completed ==> d.msg == old(d.msg) && calledWith("(WC).Format", 1) == old(d.msg)
+//@   ensures  frozen: s.Completed ==> d.msg == old(d.msg) && calledWith("(WC).Format", 1) == old(d.msg)
 
 //@ func (metaWrapper).Decor
 //@   props    C07 C12
